@@ -1097,7 +1097,10 @@ def generate(repo=REPO, write=True):
     for name in ("EpochSnapshot", "EncryptionConfig", "Secret", "MessageProcessingResult"):
         if not any(i["type"] == name and i["trait"] == "Debug" for i in impls):
             raise Missing(f"leak:manual-debug:{name}")
-    tables = [("logSites", logs), ("errorFormats", fmts), ("errorCtors", ctors), ("fmtImpls", impls), ("derivedDebug", derived)]
+    derived_res = [d for d in derived if d["role"] in ("result", "config")]
+    derived_rec = [d for d in derived if d["role"] == "record"]
+    tables = [("logSites", logs), ("errorFormats", fmts), ("errorCtors", ctors), ("fmtImpls", impls),
+              ("derivedResultDebug", derived_res), ("derivedRecordDebug", derived_rec)]
     sid = 0
     for _, tbl in tables:
         tbl.sort(key=lambda s: (s["file"], s["line"], s.get("variant", ""), s.get("type", "")))
@@ -1110,7 +1113,8 @@ def generate(repo=REPO, write=True):
          "   derived Debug of a type holding a sensitive field.  `⟨id, [classes of the rendered arguments]⟩`;",
          "   provenance (file:line, expression, rule) is in the comment after each entry. -/",
          "import MdkVerif.Model.Leak", "namespace MdkVerif.GeneratedLeak", "open MdkVerif.Leak", ""]
-    kinds = {"logSites": ".log", "errorFormats": ".errFmt", "errorCtors": ".errCtor", "fmtImpls": ".fmtImpl", "derivedDebug": ".derived"}
+    kinds = {"logSites": ".log", "errorFormats": ".errFmt", "errorCtors": ".errCtor", "fmtImpls": ".fmtImpl",
+             "derivedResultDebug": ".derived", "derivedRecordDebug": ".derived"}
     for name, tbl in tables:
         L.append(f"def {name} : List Site := [")
         for k, s in enumerate(tbl):
@@ -1124,6 +1128,9 @@ def generate(repo=REPO, write=True):
                      f"  -- {s['file']}:{s['line']} {what} {('| ' + exprs) if exprs else ''}")
         L.append("]")
         L.append("")
+    L.append("/-- the tables a modelled execution is interpreted against -/")
+    L.append("def tables : Tables := { logSites := logSites, errorFormats := errorFormats, errorCtors := errorCtors, fmtImpls := fmtImpls }")
+    L.append("")
     L.append("end MdkVerif.GeneratedLeak")
     text = "\n".join(L) + "\n"
     if write:
@@ -1136,6 +1143,7 @@ def generate(repo=REPO, write=True):
             with open(OUT, "w") as f:
                 f.write(text)
     return dict(logSites=logs, errorFormats=fmts, errorCtors=ctors, fmtImpls=impls, derivedDebug=derived,
+                derivedResultDebug=derived_res, derivedRecordDebug=derived_rec,
                 rules=sorted(RULES_USED.items()), site_rules=[dict(file=a, fn=b, expr=c, cls=e, why=f) for a, b, c, d, e, f in SITE_RULES])
 
 
